@@ -44,7 +44,7 @@ RULE = ("the real RWLock runs on real threads whose mutex class is replaced (ins
         "least one context switch at a yield point")
 ASSUMPTIONS = ["threading.Lock semantics modelled by the virtual lock (mutual exclusion, release by any thread, no reentrancy)",
                "schedules beyond the delay bound / the sampled random ones are not covered", "CPython threading primitives used by the scheduler itself"]
-REQUIRED = {"quick": ["independence_probe", "schedule.two_locks", "schedule.systematic", "schedule.random", "schedule.pct", "share_probe", "quiescence", "free_running",
+REQUIRED = {"quick": ["handoff_probe", "independence_probe", "schedule.two_locks", "schedule.systematic", "schedule.random", "schedule.pct", "share_probe", "quiescence", "free_running",
                       "occupancy.RR", "occupancy.W", "occupancy.R", "blocked_events", "max_readers_ge2"]}
 WATCHDOG_S = {"quick": 600, "thorough": 3000}
 
@@ -71,6 +71,7 @@ def shards(tier, seed):
     out.append(("child_random", dict(kind="random", count=200 if q else 2000, lines=True, _pyopt="opt+hashseed")))
     out.append(("child_free", dict(kind="free", rounds=100 if q else 1000, _pyopt="opt")))
     out.append(("share", dict(kind="share", count=100 if q else 2000)))
+    out.append(("handoff", dict(kind="handoff", count=60 if q else 1500)))
     out.append(("free", dict(kind="free", rounds=300 if q else 3000)))
     return out
 
@@ -339,6 +340,65 @@ def run(ctx, name, kind, **kw):
                 dec = S.random_decider(rng, rng.choice((0.1, 0.3, 0.6))) if i % 3 else S.pct_decider(rng, cfg[0] + cfg[1] + sum(second), 3, 120)
                 s, mon, lock, ok = one_run(cfg[0], cfg[1], rng.choice((1, 2)), dec, None, second_lock=second)
                 judge(ctx, "schedule.two_locks", cfg, s, mon, lock, ok, seen, dict(second_lock=list(second)))
+        elif kind == "handoff":
+            # a read hold acquired by one thread and released by ANOTHER (the underlying mutexes allow it, the counters are per lock, not
+            # per thread): afterwards the lock is free - a writer gets in, and the first thread's next reader_acquire waits for that writer
+            for i in range(kw["count"]):
+                _install_shim()
+                S.VLock.counter = 0
+                s = S.Sched(S.random_decider(rng, rng.choice((0.2, 0.5, 0.9))), max_steps=8000)
+                S.VLock.sched = s
+                lock = RW.RWLock()
+                st = {"a_in": False, "released_by_b": False, "w_inside": False, "w_done": False, "fail": None}
+
+                def wait(cond, what):
+                    spins = 0
+                    while not cond():
+                        spins += 1
+                        if spins > 3000:
+                            st["fail"] = st["fail"] or "gave up waiting for " + what
+                            return False
+                        s.yield_point(("wait", what, spins))
+                    return True
+
+                def TA():
+                    lock.reader_acquire()
+                    st["a_in"] = True
+                    if not wait(lambda: st["w_inside"] or st["w_done"], "the writer to get in after the hand-off release"):
+                        return
+                    lock.reader_acquire()          # second acquire by the thread whose first hold was released by B
+                    if st["w_inside"]:
+                        st["fail"] = "a reader got in while the writer was inside (after its earlier hold had been released by another thread)"
+                    lock.reader_release()
+
+                def TB():
+                    if wait(lambda: st["a_in"], "reader A"):
+                        lock.reader_release()
+                        st["released_by_b"] = True
+
+                def TW():
+                    if not wait(lambda: st["released_by_b"], "the hand-off release"):
+                        return
+                    lock.writer_acquire()
+                    st["w_inside"] = True
+                    for j in range(rng.choice((1, 3, 8))):
+                        s.yield_point(("writing", j))
+                    st["w_inside"] = False
+                    st["w_done"] = True
+                    lock.writer_release()
+                s.spawn(TA, "A")
+                s.spawn(TB, "B")
+                s.spawn(TW, "W")
+                ok = s.run(timeout=30.0)
+                S.VLock.sched = None
+                ctx.case("handoff_probe", key=hashlib.sha1(repr(s.decisions).encode()).hexdigest()[:12], nontrivial=True)
+                excs = [t.exc for t in s.ts if t.exc is not None]
+                if st["fail"] or s.deadlock or not ok or excs:
+                    ctx.violation("cross_thread_release_breaks_the_lock", "read hold released by another thread, then writer, then the first thread reads again: %s" % (st["fail"] or s.deadlock or (excs and repr(excs[0])) or s.aborted),
+                                  dict(decisions=s.decisions[:400]))
+                else:
+                    probs = quiescent(lock)
+                    ctx.check(not probs, "not_quiescent_after_release", "hand-off probe: %s" % probs, dict(decisions=s.decisions[:400]))
         elif kind == "share":
             # no writer exists; reader A parks inside; every other reader must get in while A is inside
             for i in range(kw["count"]):
